@@ -477,15 +477,15 @@ def refProps (ps : List PropV) : List PropV := ps.filter (fun p => p.ty == tyRef
 def endpointOk (p : Path0) : M Unit := do
   if p.host.isSome then raise (cim cimErrInvalidParameter)
   else match p.ns with
-    | none => raise .valueError                   -- get_instance_store(None)
+    | none => raise (cim cimErrInvalidParameter)    -- "does not specify a namespace"
     | some ns =>
       let s ← getS
       match findNs s ns with
       | none => raise (cim cimErrInvalidParameter)
       | some r => if hasInst r (path0Key p ns) then pure () else raise (cim cimErrInvalidParameter)
 
-/-- mirrors _instancewriteprovider.py: find_multins_association_ref_namespaces (after the fix: namespace names
-    compare case-insensitively, first occurrence kept).  A NULL reference raises AttributeError. -/
+/-- mirrors _instancewriteprovider.py: find_multins_association_ref_namespaces (after the fixes: namespace names
+    compare case-insensitively, first occurrence kept; a NULL reference names no namespace). -/
 def multiNsAux (target : Name) : List PropV → List Name → Except PyExc (List Name)
   | [], acc => .ok acc
   | p :: ps, acc =>
@@ -496,7 +496,8 @@ def multiNsAux (target : Name) : List PropV → List Name → Except PyExc (List
       | some n =>
         if !n.isEmpty && !nameEq n target && !nmem n acc then multiNsAux target ps (acc ++ [n])
         else multiNsAux target ps acc
-    | _ => .error .attributeError
+    | .null => multiNsAux target ps acc
+    | .sc _ => .error .attributeError
 
 def multiNs (ps : List PropV) (target : Name) : Except PyExc (List Name) := multiNsAux target (refProps ps) []
 
@@ -568,10 +569,9 @@ def updateProps (old new : List PropV) : List PropV :=
     if (findPropV acc p.name).isSome then acc.map (fun x => if nameEq x.name p.name then p else x)
     else acc ++ [p]) old
 
-/-- mirrors _instancewriteprovider.py: modify_multi_namespace_instance.  The SAME instance object is stored
-    (without copy) in every namespace and its path is re-assigned in the loop, so that afterwards every stored
-    copy carries the path of the last namespace (= the request namespace `orig`); the dict keys keep theirs. -/
-def modifyMulti (nss : List Name) (orig : Name) (rec : InstRec) : M Unit := do
+/-- mirrors _instancewriteprovider.py: modify_multi_namespace_instance (every namespace gets its own copy of the
+    instance with the path of that namespace; the dict keys keep theirs) -/
+def modifyMulti (nss : List Name) (rec : InstRec) : M Unit := do
   let s ← getS
   if nss.any (fun n => match findNs s n with | some r => !hasClass r rec.cls | none => true) then
     raise (cim cimErrInvalidClass)
@@ -580,7 +580,7 @@ def modifyMulti (nss : List Name) (orig : Name) (rec : InstRec) : M Unit := do
     raise (cim cimErrNotFound)
   else
     forM_ (fun n => inNs n (instUpdateR { rec with key := { rec.key with ns := lower n },
-                                                   path := { rec.path with ns := some orig } })) nss
+                                                   path := { rec.path with ns := some n } })) nss
 
 /-- does the modified value differ from the stored one (`prop.value != original_instance[pn]`) -/
 def valueChanged (stored : InstRec) (pv : PropV) : Bool :=
@@ -604,7 +604,7 @@ def modifyProvider (ns : Name) (cc : ClassRec) (stored : InstRec) (props : List 
     if !others.isEmpty then
       -- the namespace appended last is the one of the STORED path (`original_instance.path.namespace`)
       let sns := stored.path.ns.getD ns
-      modifyMulti (others ++ [sns]) sns rec'
+      modifyMulti (others ++ [sns]) rec'
     else inNs ns (instUpdateR rec')
   else inNs ns (instUpdateR rec')
 
@@ -626,15 +626,17 @@ def modifyInstance (ns : Name) (p : Path) (i0 : Inst) : M Unit := do
           raise (cim cimErrInvalidParameter)
         else modifyProvider ns cc stored (adjustNames cc i0.props)
 
-/-- the multi-namespace branch of InstanceWriteProvider.DeleteInstance (after the fix: existence in all
-    namespaces is verified before the first delete) -/
+/-- delete the copy of the instance in one namespace if it is (still) there -/
+def instDeleteIfPresentR (k : PKey) (r : NsRec) : Except PyExc NsRec :=
+  if hasInst r k then instDeleteR k r else .ok r
+
+/-- the multi-namespace branch of InstanceWriteProvider.DeleteInstance (after the fixes: the instance stores of
+    ALL namespaces are looked up first - KeyError for a namespace that does not exist - and a copy that is already
+    gone is skipped) -/
 def deleteMulti (nss : List Name) (k : PKey) : M Unit := do
   let s ← getS
-  if nss.any (fun n => (findNs s n).isNone) then raise (cim cimErrInvalidParameter)
-  else if nss.any (fun n => match findNs s n with
-                            | some r => !hasInst r { k with ns := lower n } | none => true) then
-    raise (cim cimErrNotFound)
-  else forM_ (fun n => inNs n (instDeleteR { k with ns := lower n })) nss
+  if nss.any (fun n => (findNs s n).isNone) then raise .keyError
+  else forM_ (fun n => inNs n (instDeleteIfPresentR { k with ns := lower n })) nss
 
 /-- mirrors _instancewriteprovider.py: InstanceWriteProvider.DeleteInstance -/
 def deleteProvider (ns : Name) (cc : ClassRec) (stored : InstRec) (k : PKey) : M Unit :=
